@@ -602,6 +602,9 @@ fn node_to_tokens(
         Node::Block(block) => {
             Some(quote! { ::leptos::prelude::IntoRender::into_render(#block) })
         }
+        // an empty string literal denotes no text: the inert path writes nothing for it,
+        // so the builder path must not create a text node (rendered as a placeholder blank)
+        Node::Text(text) if text.value_string().is_empty() => None,
         Node::Text(text) => Some(text_to_tokens(&text.value)),
         Node::RawText(raw) => {
             let text = raw.to_string_best();
